@@ -31,7 +31,7 @@ def stream(a, size, term, leader, li):
 MUTATIONS = ['none', 'none', 'none', 'drop', 'dup', 'swap', 'bad-checksum', 'bad-data', 'leader-change', 'term-change', 'early-close',
              'timeout', 'timeout-after-all', 'no-meta', 'meta-no-last-included', 'meta-late', 'total+1', 'total-1', 'total-0',
              'seq-from-1', 'extra-chunk', 'later-total-differs', 'later-meta-differs', 'not-gzip', 'tiny-file', 'broken-archive',
-             'sm-refuses', 'empty-stream', 'restart-mid-stream', 'short-checksum']
+             'sm-refuses', 'empty-stream', 'restart-mid-stream', 'short-checksum', 'dups-hide-missing-tail', 'dups-hide-missing-tail']
 
 def gen_one(r, mut):
     payload = bytes(r.range(0, 255) for _ in range(r.range(1, 10)))
@@ -103,6 +103,16 @@ def gen_one(r, mut):
         sm_ok = 0
     elif mut == 'empty-stream':
         evs = []
+    elif mut == 'dups-hide-missing-tail':   # j retransmissions of chunks already sent, then the stream ends m chunks early
+        if n < 2:                            # (m = j in two cases out of three: a receiver that counts chunks instead of bytes is fooled)
+            a2 = archive(bytes(r.range(0, 255) for _ in range(r.range(20, 40)))); evs = stream(a2, 16, term, leader, li); n = len(evs)
+            archives = None
+        j = r.range(1, min(3, n - 1)); m = j if r.chance(2, 3) else r.range(0, n - 1)
+        keep = evs[:n - m] if m else evs[:]
+        for _ in range(j):
+            pos = r.range(1, len(keep)); src = r.below(pos)          # a copy of an earlier chunk, delivered later
+            keep.insert(pos, json.loads(json.dumps(keep[src])))
+        evs = keep
     elif mut == 'restart-mid-stream':       # the leader starts over from chunk 0 on the same channel
         evs = evs[:max(k, 1)] + json.loads(json.dumps(evs))
     # initial directory
